@@ -1,10 +1,13 @@
 import AtsimModel.Driver.Json
 import AtsimModel.Gen.Logic
+import AtsimModel.Model.Ini
+import AtsimModel.Lemmas.IniOps
+import AtsimModel.Driver.Ini
 /-! Driver for the REGENERATED definitions of `Gen/Logic.lean` (kept apart from the model driver: when the translator cannot translate a function any more
     this file does not build, which must not take the model driver with it).  Used by the harness to validate the translator itself: the generated writer
     is run on concrete inputs, its tokens are rendered with Python's own formatting and compared byte for byte with what the real writer wrote. -/
 namespace Atsim.Drv
-open Lean Atsim.Gen.Logic
+open Lean Atsim.Gen.Logic Atsim.IniOps
 
 partial def ovJ : OV → Json
   | .int i => arrJ [Json.str "i", intJ i]
@@ -20,8 +23,62 @@ def parsePotRecs (j : Json) : Except String (List PotRec) := do
   (← getArr j "pots").mapM fun p => do
     return { a := ← getStr p "a", b := ← getStr p "b", fid := ← getNat p "fid" }
 
+def parseEamRecs (j : Json) : Except String (List EamRec) := do
+  (← getArr j "els").mapM fun e => do
+    let fs ← (← getArr e "densFS").mapM fun d => do return ((← getStr d "to"), (⟨← getNat d "fid"⟩ : FnRec))
+    return { species := ← getStr e "sp", atomicNumber := ← getInt e "z", mass := ← getRat e "mass", latticeConstant := ← getRat e "a0",
+             latticeType := ← getStr e "lat", embed := ⟨← getNat e "embed"⟩, dens := ⟨← getNat e "dens"⟩, densFS := fs }
+
+def cfgErrJ : CfgErr → Json
+  | .notTwoParts => Json.str "notTwoParts" | .blankSpecies => Json.str "blankSpecies" | .unpack => Json.str "unpack"
+  | .duplicatePair => Json.str "duplicatePair" | .duplicateTableForm => Json.str "duplicateTableForm"
+
+def parseCfgRec (j : Json) : Except String CfgRec := do
+  let secs ← (← getArr j "sections").mapM fun s => do return ((← getStr s "name"), (← getStrs s "keys"))
+  return ⟨secs⟩
+
 def handleGen (op : String) (j : Json) : Except String Json := do
   match op with
+  | "pair_species" =>
+    match pair_species_func Atsim.strip (← getStr j "k") with
+    | .ok p => return arrJ [Json.str p.1, Json.str p.2]
+    | .error e => return cfgErrJ e
+  | "dup_pairs" =>
+    match dup_pairs Atsim.strip (← parseCfgRec j) with
+    | .ok _ => return Json.str "ok"
+    | .error e => return cfgErrJ e
+  | "dup_table_forms" =>
+    -- the two regular-expression helpers are operations of the translated function: their values on this configuration's section names come with the request
+    let tbl ← (← getArr j "names").mapM fun s => do return ((← getStr s "name"), (← getBool s "relevant"), (← getStr s "label"))
+    let rel := fun (n : String) => ((tbl.find? fun e => e.1 == n).map (·.2.1)).getD false
+    let lab := fun (n : String) => ((tbl.find? fun e => e.1 == n).map (·.2.2)).getD ""
+    match dup_table_forms rel lab ⟨tbl.map fun e => (e.1, [])⟩ with
+    | .ok _ => return Json.str "ok"
+    | .error e => return cfgErrJ e
+  | "apply_overrides" =>
+    -- the regenerated override loops on the model's parser operations: same request and answer format as the model driver's "apply" (API form)
+    let lines ← (← getArr j "lines").mapM parseLine
+    let ovs ← (← getArr j "overrides").mapM parseOp
+    let ads ← (← getArr j "additional").mapM parseOp
+    match readIni currentCfg lines with
+    | .error e => return Json.mkObj [("err", errJ' e)]
+    | .ok ini =>
+      match apply_overrides hasOptionR hasSectionR sectionKeysR removeOptionR removeSectionR addSectionR setValueR (wrap ini) (ovs.map toOv) (ads.map toOv) with
+      | .error e => return Json.mkObj [("err", match e with | .missing => "missing" | .exists => "exists" | .badValue => "badValue")]
+      | .ok r => return Json.mkObj [("ini", iniJ r.state)]
+  | "tabeam" =>
+    let r := tabeam_write (← getInt j "nrho") (← getRat j "drho") (← getInt j "nr") (← getRat j "dr") (← parseEamRecs j) (← parsePotRecs j) [] (← getStr j "title")
+    return arrJ (r.map tokJ)
+  | "tabeam_fs" =>
+    match tabeam_write_fs (← getInt j "nrho") (← getRat j "drho") (← getInt j "nr") (← getRat j "dr") (← parseEamRecs j) (← parsePotRecs j) [] (← getStr j "title") with
+    | .ok r => return arrJ (r.map tokJ)
+    | .error _ => return Json.str "raised"
+  | "setfl" =>
+    -- the header writer is an operation of the translated function (not translated): left out here, the harness drops the header lines of the real file
+    let els ← parseEamRecs j
+    let dens := if (← getBool j "fs") then setfl_density_fs else setfl_density
+    let r := setfl_write (fun _ _ _ _ _ _ _ out => out) (← getInt j "nrho") (← getRat j "drho") (← getInt j "nr") (← getRat j "dr") 0 els (← parsePotRecs j) [] [] dens
+    return arrJ (r.map tokJ)
   | "lammps" =>
     let r := lammps_write_potentials (← parsePotRecs j) (← getRat j "minr") (← getRat j "maxr") (← getInt j "n") []
     return arrJ (r.map tokJ)
